@@ -163,8 +163,9 @@ Proof.
 Qed.
 Lemma C_handle_offer e a : C (handle_offer e a).
 Proof.
-  intros w. unfold handle_offer. destruct (negb (is_watching e w)); [apply cext_refl|].
-  destruct (from_offer_entry e); [|apply cext_refl]. destruct (e_ttl e =? 0); [apply C_store_stop|apply C_store_refresh].
+  intros w. unfold handle_offer.
+  destruct (from_offer_entry e); [|apply cext_refl]. destruct (e_ttl e =? 0); [apply C_store_stop|].
+  destruct (negb (is_watching e w)); [apply cext_refl|apply C_store_refresh].
 Qed.
 Lemma C_discovery_start : C discovery_start.
 Proof.
